@@ -60,6 +60,18 @@ theorem sub_ge' {v : Nat} (hv : v < cap h) (hb : 1 ≤ getBucketIndex h v) :
       = h.halfMag + (getBucketIndex h v + h.unitMag) := by omega
   rw [e] at h1; exact h1
 
+theorem value_in_range' {v : Nat} (hv : v < cap h) : lowestEquiv h v ≤ v ∧ v ≤ highestEquiv h v :=
+  value_in_range (h := capH h) (capH_wf wf) (show v ≤ cap h - 1 by omega)
+
+theorem width_bound' {v : Nat} (hv : v < cap h) :
+    sizeOfRange h v = 2 ^ h.unitMag ∨ sizeOfRange h v * 10 ^ h.sigfigs ≤ v :=
+  width_bound (h := capH h) (capH_wf wf) (show v ≤ cap h - 1 by omega)
+
+theorem size_pos' {v : Nat} (hv : v < cap h) : 0 < sizeOfRange h v := by
+  have : sizeOfRange h v = 2 ^ (h.unitMag + getBucketIndex h v) :=
+    size_eq (h := capH h) (capH_wf wf) (show v ≤ cap h - 1 by omega)
+  rw [this]; exact Nat.two_pow_pos _
+
 /-- the index as a natural number -/
 def idx (h : Hist) (v : Nat) : Nat :=
   getBucketIndex h v * 2 ^ h.halfMag + getSubBucketIdx h v (getBucketIndex h v)
@@ -464,5 +476,174 @@ theorem find_iter {h : Hist} (wf : WF h) (rank : Int) (hr : rank ≤ h.total) (t
       have hd : decide (pre h.counts (j + 1) ≥ rank) = false := by simp; omega
       simp only [hd]
       exact ih b1 s1 (j + 1) st' (by omega) (by omega) hlt' (fun k hk1 hk2 => hbefore k (by omega) hk2)
+
+/-! ### which values are accepted -/
+
+/-- the same index arithmetic with the largest capacity an `int64` allows -/
+def bigH (h : Hist) : Hist :=
+  { h with bucketCount := 63 - h.halfMag - h.unitMag,
+           countsLen := (63 - h.halfMag - h.unitMag + 1) * 2 ^ h.halfMag,
+           highest := 2 ^ 63 - 1 }
+
+theorem bigH_wf {h : Hist} (wf : WF h) : WF (bigH h) := by
+  have hb := wf.bits
+  have hp := wf.bucket_pos
+  exact
+  { subCount_eq := wf.subCount_eq, halfCount_eq := wf.halfCount_eq, mask_eq := wf.mask_eq,
+    countsLen_eq := rfl
+    bucket_pos := by show 1 ≤ 63 - h.halfMag - h.unitMag; omega
+    covers := by
+      show 2 ^ 63 - 1 < 2 ^ (h.halfMag + h.unitMag + (63 - h.halfMag - h.unitMag))
+      have e : h.halfMag + h.unitMag + (63 - h.halfMag - h.unitMag) = 63 := by omega
+      rw [e]; omega
+    bits := by show h.halfMag + h.unitMag + (63 - h.halfMag - h.unitMag) ≤ 63; omega
+    precision := wf.precision }
+
+theorem cap_bigH {h : Hist} (wf : WF h) : cap (bigH h) = 2 ^ 63 := by
+  have hb := wf.bits
+  have hp := wf.bucket_pos
+  show 2 ^ (h.halfMag + h.unitMag + (63 - h.halfMag - h.unitMag)) = 2 ^ 63
+  congr 1; omega
+
+theorem cix_eq_idx {h : Hist} (wf : WF h) (v : Int) : cix h v = idx h v.toNat := by
+  unfold cix idx; rw [countsIndexFor_eq wf]; exact Int.toNat_natCast _
+
+/-- an `int64` value is accepted iff it lies below the capacity of the counts array
+(which may exceed the nominal highest trackable value) -/
+theorem accepts_iff {h : Hist} (wf : WF h) {v : Int} (h63 : v < 2 ^ 63) :
+    accepts h v = true ↔ 0 ≤ v ∧ v.toNat < cap h := by
+  constructor
+  · intro ha
+    have hlt := accepts_cix_lt ha
+    have h0 : 0 ≤ v := by
+      simp only [accepts, Bool.and_eq_true, decide_eq_true_eq] at ha; omega
+    refine ⟨h0, ?_⟩
+    apply Classical.byContradiction
+    intro hge
+    have hge : cap h ≤ v.toNat := by omega
+    have hv63 : v.toNat < cap (bigH h) := by rw [cap_bigH wf]; omega
+    have wfb := bigH_wf wf
+    -- the bucket of `v` lies beyond the array
+    have hbe : getBucketIndex h v.toNat =
+        max (blen v.toNat) (h.halfMag + 1 + h.unitMag) - h.unitMag - (h.halfMag + 1) :=
+      bucket_eq' (h := bigH h) wfb hv63
+    have hbl : h.halfMag + h.unitMag + h.bucketCount < blen v.toNat := lt_blen_of_le hge
+    have hb : h.bucketCount ≤ getBucketIndex h v.toNat := by
+      rw [hbe]
+      have := Nat.le_max_left (blen v.toNat) (h.halfMag + 1 + h.unitMag)
+      generalize max (blen v.toNat) (h.halfMag + 1 + h.unitMag) = m at *
+      omega
+    have hsub : 2 ^ h.halfMag ≤ getSubBucketIdx h v.toNat (getBucketIndex h v.toNat) :=
+      sub_ge' (h := bigH h) wfb hv63 (show 1 ≤ getBucketIndex h v.toNat by have := wf.bucket_pos; omega)
+    rw [cix_eq_idx wf, wf.countsLen_eq] at hlt
+    unfold idx at hlt
+    have : (h.bucketCount + 1) * 2 ^ h.halfMag ≤
+        getBucketIndex h v.toNat * 2 ^ h.halfMag + 2 ^ h.halfMag := by
+      rw [Nat.add_mul, Nat.one_mul]
+      exact Nat.add_le_add_right (Nat.mul_le_mul_right _ hb) _
+    omega
+  · intro ⟨h0, hc⟩
+    have := index_in_range (h := capH h) (capH_wf wf) (show v.toNat ≤ cap h - 1 by omega)
+    simp only [accepts, Bool.and_eq_true, decide_eq_true_eq]
+    exact ⟨⟨h0, this.1⟩, this.2⟩
+
+/-! ### the value at a rank is the representative of the order statistic -/
+
+/-- `x` is an order statistic of rank `r` of the multiset `A`: fewer than `r` elements lie
+strictly below it and at least `r` lie at or below it (no sorting needed to say this) -/
+def IsOrderStat (A : List Nat) (r : Nat) (x : Nat) : Prop :=
+  x ∈ A ∧ A.countP (fun a => decide (a < x)) < r ∧ r ≤ A.countP (fun a => decide (a ≤ x))
+
+/-- the values a histogram accepts, as naturals -/
+def accepted (h : Hist) (vs : List Int) : List Nat := (vs.filter (accepts h)).map Int.toNat
+
+theorem countP_accepted (h : Hist) (vs : List Int) (q : Nat → Bool) :
+    (vs.countP fun v => accepts h v && q v.toNat) = (accepted h vs).countP q := by
+  unfold accepted
+  rw [List.countP_map, List.countP_filter]
+  congr 1; funext v; simp [Bool.and_comm]
+
+theorem mem_accepted {h : Hist} (wf : WF h) {vs : List Int} (h63 : ∀ v ∈ vs, v < 2 ^ 63) {a : Nat}
+    (ha : a ∈ accepted h vs) : a < cap h := by
+  unfold accepted at ha
+  obtain ⟨v, hv, rfl⟩ := List.mem_map.1 ha
+  obtain ⟨hm, hacc⟩ := List.mem_filter.1 hv
+  exact ((accepts_iff wf (h63 v hm)).1 hacc).2
+
+theorem wf_with {h : Hist} (wf : WF h) (c : List Int) (t : Int) : WF { h with counts := c, total := t } :=
+  ⟨wf.1, wf.2, wf.3, wf.4, wf.5, wf.6, wf.7, wf.8⟩
+
+theorem valueAtRank_orderStat {h0 : Hist} (wf : WF h0)
+    (hc : h0.counts = List.replicate h0.countsLen 0) (ht : h0.total = 0)
+    (vs : List Int) (h63 : ∀ v ∈ vs, v < 2 ^ 63) (r x : Nat)
+    (hos : IsOrderStat (accepted h0 vs) r x) :
+    valueAtRank (recordAll h0 vs) r = highestEquiv h0 x := by
+  obtain ⟨hx, hlt, hle⟩ := hos
+  have hxc : x < cap h0 := mem_accepted wf h63 hx
+  have e := recordAll_eq h0 vs h0.counts h0.total
+  change recordAll h0 vs = _ at e
+  rw [e, hc, ht]
+  generalize hH : Hist.mk h0.lowest h0.highest h0.unitMag h0.sigfigs h0.halfMag h0.halfCount h0.mask h0.subCount
+    h0.bucketCount h0.countsLen (0 + ((vs.filter (accepts h0)).length : Int))
+    (cnts h0 (List.replicate h0.countsLen 0) vs) = H
+  have wfH : WF H := by rw [← hH]; exact wf_with wf _ _
+  have hcounts : H.counts = cnts h0 (List.replicate h0.countsLen 0) vs := by rw [← hH]
+  have htotal : H.total = ((accepted h0 vs).length : Int) := by
+    rw [← hH]; simp [accepted]
+  have hpre : ∀ k, pre H.counts k = (((accepted h0 vs).countP fun a => decide (idx h0 a < k) : Nat) : Int) := by
+    intro k
+    rw [hcounts, pre_cnts, ← countP_accepted]
+    congr 2; funext v; rw [cix_eq_idx wf]
+  -- the hit position
+  have hxi : idx h0 x < h0.countsLen := by
+    have := index_in_range (h := capH h0) (capH_wf wf) (show x ≤ cap h0 - 1 by omega)
+    rw [countsIndexFor_eq (capH_wf wf)] at this
+    exact_mod_cast this.2
+  have hr1 : (r : Int) ≤ H.total := by
+    rw [htotal]
+    have := List.countP_le_length (p := fun a => decide (a ≤ x)) (l := accepted h0 vs)
+    exact_mod_cast Nat.le_trans hle this
+  have hit : (r : Int) ≤ pre H.counts (idx h0 x + 1) := by
+    rw [hpre]
+    have : (accepted h0 vs).countP (fun a => decide (a ≤ x)) ≤
+        (accepted h0 vs).countP (fun a => decide (idx h0 a < idx h0 x + 1)) := by
+      apply List.countP_mono_left
+      intro a ha hax
+      simp only [decide_eq_true_eq] at hax ⊢
+      exact Nat.lt_succ_of_le (idx_mono wf hax hxc)
+    exact_mod_cast Nat.le_trans hle this
+  have hbefore : ∀ k, 0 ≤ k → k < idx h0 x → pre H.counts (k + 1) < (r : Int) := by
+    intro k _ hk
+    rw [hpre]
+    have : (accepted h0 vs).countP (fun a => decide (idx h0 a < k + 1)) ≤
+        (accepted h0 vs).countP (fun a => decide (a < x)) := by
+      apply List.countP_mono_left
+      intro a ha hak
+      simp only [decide_eq_true_eq] at hak ⊢
+      apply Classical.byContradiction
+      intro hn
+      have := idx_mono wf (show x ≤ a by omega) (mem_accepted wf h63 ha)
+      omega
+    exact_mod_cast Nat.lt_of_le_of_lt this hlt
+  have hpre0 : pre H.counts 0 < (r : Int) := by
+    rw [hpre]; simp; omega
+  have hcl : H.countsLen = h0.countsLen := by rw [← hH]
+  have hhm : H.halfMag = h0.halfMag := by rw [← hH]
+  obtain ⟨p, hfind, b', s', vp, hix, hvf⟩ :=
+    find_iter wfH (r : Int) hr1 (idx h0 x) (by rw [hcl]; exact hxi) hit
+      (H.countsLen + 2) 0 (-1) 0 (st_init _ (Nat.two_pow_pos _)) (Nat.zero_le _) (by rw [hcl]; omega) hpre0
+      hbefore
+  have hp0 : pre H.counts 0 = 0 := by simp [pre]
+  rw [hp0] at hfind
+  unfold valueAtRank iter
+  rw [hfind]
+  simp only
+  rw [hvf]
+  -- the representative of that position
+  have vpx := validPos_of wfH (v := x) (by rw [← hH]; exact hxc)
+  have hidx : b' * 2 ^ H.halfMag + s' = idx H x := by rw [hix]; rw [← hH]; rfl
+  obtain ⟨e1, e2⟩ := pos_unique vp vpx hidx
+  rw [highestEquiv_repr wfH vp, e1, e2, ← highestEquiv_eq, ← hH]
+  rfl
 
 end Ftdc.Hdr
